@@ -220,6 +220,101 @@ def make_processes(encoders):
     return exa.make_processes([(name, want[name][0], want[name][1]) for name in encoders])
 
 
+def _render_one(res, n, neg, procs, encs, body, sidx):
+    """decode one UPDATE body and judge every rendering of it"""
+    from exabgp.bgp.message import Message, Notify
+
+    case_extra = {} if isinstance(sidx, int) else {'corpus': True}
+    try:
+        m = Message.unpack(w.UPDATE, body, neg)
+        coll = m if m.IS_EOR else m.data
+    except Notify:
+        return
+    except Exception:
+        return  # decode failures are C03's subject
+    for name, enc in encs.items():
+        res['exec'] += 1
+        case = dict({'kind': 'update', 'session': sidx, 'body': body.hex(), 'encoder': name}, **case_extra)
+        try:
+            text = enc.update(n, 'receive', coll, b'', b'', neg)
+        except Exception as e:  # noqa: BLE001
+            sig = f'render-exception:{name}:{type(e).__name__}'
+            res['viol'].setdefault(sig, (f'{type(e).__name__}: {str(e)[:120]} for UPDATE {body.hex()[:160]}', case, 0))
+            continue
+        if text is None:
+            continue
+        res['events'] += 1
+        try:
+            exa.drop_pending_writes(procs)
+            procs.write(name, text, n)
+        except Exception as e:  # noqa: BLE001
+            sig = f'write-exception:{name}:{type(e).__name__}'
+            res['viol'].setdefault(sig, (f'Processes.write raised {type(e).__name__}: {str(e)[:100]} for UPDATE {body.hex()[:160]}', case, 0))
+        if name.startswith('json'):
+            for ln in text.split('\n') if '\n' in text else [text]:
+                obj, probs = judge_json_line(ln)
+                for p in probs:
+                    sig = f'json:{name}:update:{p.split(":")[0]}' + (':' + p.split("'")[1] if 'duplicate key' in p else '')
+                    res['viol'].setdefault(sig, (f'{p}: {ln[:300]!r}', case, 0))
+            if '\n' in text:
+                res['viol'].setdefault(f'json:{name}:update:several-lines', (f'a JSON update event spans several lines: {text[:200]!r}', case, 0))
+        else:
+            if CTRL.search(text.replace('\n', '')):
+                res['viol'].setdefault(f'text-control-character:{name}:update', (f'control character in text event {text[:200]!r}', case, 0))
+
+
+def _encoders():
+    from exabgp.reactor.api.response import Response
+    from exabgp.version import json as json_version
+    from exabgp.version import json_v4 as json_v4_version
+    from exabgp.version import text_v4 as text_v4_version
+
+    return {'json6': Response.JSON(json_version), 'json4': Response.V4.JSON(json_v4_version), 'text4': Response.V4.Text(text_v4_version)}
+
+
+def _all_families_session(asn4):
+    from exabgp.protocol.family import Family
+
+    fams = sorted({(int(a), int(sa)) for a, sa in Family.size})
+    return exa.negotiated_all_families(fams, asn4=asn4, addpath=False, direction_out=False, ext_nh=True)
+
+
+def corpus_bodies(asn4):
+    """(C) every UPDATE of the frozen C03 seed corpus (one per registered family, attribute, BGP-LS / SR / prefix-SID TLV ...)
+    and every member of the C15 attribute corpus wrapped in an UPDATE with one IPv4 route"""
+    from vt.checks import c03, c15
+
+    seen = set()
+    for sd in c03.load_seeds():
+        if sd['type'] == w.UPDATE and sd['body'] not in seen:
+            seen.add(sd['body'])
+            yield sd['body']
+    base = [w.encode_attr(w.ORIGIN, b'\x00'), w.encode_attr(w.AS_PATH, w.encode_as_path([(2, [65002])], asn4)), w.encode_attr(w.NEXT_HOP, bytes([10, 0, 0, 1]))]
+    for code, members in sorted(c15.load_attrs().items()):
+        if code in (w.ORIGIN, w.AS_PATH, w.NEXT_HOP, 14, 15):
+            continue
+        for flags, a4, hx, src in members:
+            if a4 not in (asn4, 'ap'):
+                continue
+            body = w.encode_update(attrs=base + [w.encode_attr(code, bytes.fromhex(hx), flags=flags & 0xE0)], nlri=[w.nlri_ip(1, 1, '10.7.0.0', 16)])
+            if body not in seen:
+                seen.add(body)
+                yield body
+
+
+def corpus_worker(args):
+    asn4, shard, nshards = args
+    exa.reset_process_state()
+    n, neg = _all_families_session(asn4)
+    encs = _encoders()
+    procs = make_processes(encs)
+    res = {'exec': 0, 'viol': {}, 'events': 0}
+    for i, body in enumerate(corpus_bodies(asn4)):
+        if i % nshards == shard:
+            _render_one(res, n, neg, procs, encs, body, f'all-families-asn4-{asn4}')
+    return res
+
+
 def update_worker(args):
     tier, sidx, shard, nshards = args
     from exabgp.bgp.message import Message, Notify
@@ -251,48 +346,14 @@ def update_worker(args):
             yield ('agg+as4agg',), w.encode_update(attrs=tl, nlri=c08.SEEDS['v4']['nlri'])
 
     for ident, body in bodies():
-        try:
-            m = Message.unpack(w.UPDATE, body, neg)
-            coll = m if m.IS_EOR else m.data
-        except Notify:
-            continue
-        except Exception:
-            continue  # decode failures are C03's subject
-        for name, enc in encs.items():
-            res['exec'] += 1
-            try:
-                text = enc.update(n, 'receive', coll, b'', b'', neg)
-            except Exception as e:  # noqa: BLE001
-                sig = f'render-exception:{name}:{type(e).__name__}'
-                res['viol'].setdefault(sig, (f'{type(e).__name__}: {str(e)[:120]} for UPDATE {body.hex()[:160]}', {'kind': 'update', 'session': sidx, 'body': body.hex(), 'encoder': name}, 0))
-                continue
-            if text is None:
-                continue
-            res['events'] += 1
-            try:
-                exa.drop_pending_writes(procs)
-                procs.write(name, text, n)
-            except Exception as e:  # noqa: BLE001
-                sig = f'write-exception:{name}:{type(e).__name__}'
-                res['viol'].setdefault(sig, (f'Processes.write raised {type(e).__name__}: {str(e)[:100]} for UPDATE {body.hex()[:160]}', {'kind': 'update', 'session': sidx, 'body': body.hex(), 'encoder': name}, 0))
-            if name.startswith('json'):
-                for ln in text.split('\n') if '\n' in text else [text]:
-                    obj, probs = judge_json_line(ln)
-                    for p in probs:
-                        sig = f'json:{name}:update:{p.split(":")[0]}' + (':' + p.split("'")[1] if 'duplicate key' in p else '')
-                        res['viol'].setdefault(sig, (f'{p}: {ln[:300]!r}', {'kind': 'update', 'session': sidx, 'body': body.hex(), 'encoder': name}, 0))
-                if '\n' in text:
-                    res['viol'].setdefault(f'json:{name}:update:several-lines', (f'a JSON update event spans several lines: {text[:200]!r}', {'kind': 'update', 'session': sidx, 'body': body.hex(), 'encoder': name}, 0))
-            else:
-                if CTRL.search(text.replace('\n', '')):
-                    res['viol'].setdefault(f'text-control-character:{name}:update', (f'control character in text event {text[:200]!r}', {'kind': 'update', 'session': sidx, 'body': body.hex(), 'encoder': name}, 0))
+        _render_one(res, n, neg, procs, encs, body, sidx)
     return res
 
 
 def run(ctx: core.Ctx) -> None:
     inj = [(f, h, v, e) for f in FIELDS for h in HOSTILE if h != 'benign' for v, e in ENCODERS]
     ctx.rule = (f'(A) {len(FIELDS)} peer-chosen string fields x {len(HOSTILE) - 1} hostile payloads x 3 encoders (JSON v6, JSON v4, text v4), each a full session in the virtual world compared with the same session carrying a benign string; '
-                '(B) every decodable UPDATE of the C02 enumeration (4 sessions) and of the C08 malformed-attribute neighbourhood rendered by the 3 encoders and written through Processes.write; non-trivial = every (field, payload, encoder) and every rendered event')
+                '(B) every decodable UPDATE of the C02 enumeration (4 sessions) and of the C08 malformed-attribute neighbourhood rendered by the 3 encoders and written through Processes.write; (C) every UPDATE of the frozen C03 seed corpus (every registered family, attribute, BGP-LS / SR / prefix-SID / tunnel TLV recorded in the QA data of the repository) and every member of the C15 attribute corpus, decoded on a session with every family negotiated (ASN4 on / off) and rendered the same way; non-trivial = every (field, payload, encoder) and every rendered event')
     ctx.assumptions += ['strict JSON: json.loads with a duplicate-key-rejecting hook; one event = one line', 'structure (keys, nesting, value kinds) must equal that of the benign run']
     pool = mp.Pool(min(16, os.cpu_count() or 1))
     try:
@@ -307,6 +368,13 @@ def run(ctx: core.Ctx) -> None:
         for res in pool.imap_unordered(update_worker, jobs):
             ctx.count('executions', res['exec'])
             ctx.count('nontrivial', res['events'])
+            for sig, (what, case, _) in res['viol'].items():
+                ctx.violation(sig, what, case)
+        cjobs = [(asn4, sh, 8) for asn4 in (True, False) for sh in range(8)]
+        for res in pool.imap_unordered(corpus_worker, cjobs):
+            ctx.count('executions', res['exec'])
+            ctx.count('nontrivial', res['events'])
+            ctx.count('corpus_events', res['events'])
             for sig, (what, case, _) in res['viol'].items():
                 ctx.violation(sig, what, case)
         ctx.sample({'field': 'hostname', 'payload': repr(HOSTILE['forge-state']), 'encoder': 'json v6'})
@@ -328,9 +396,11 @@ def replay(case):
     from exabgp.version import json_v4 as json_v4_version
     from exabgp.version import text_v4 as text_v4_version
 
-    s = c02.SESSIONS[case['session']]
     exa.reset_process_state()
-    n, neg = c02.session_objects(s)
+    if case.get('corpus'):
+        n, neg = _all_families_session(case['session'].endswith('True'))
+    else:
+        n, neg = c02.session_objects(c02.SESSIONS[case['session']])
     encs = {'json6': Response.JSON(json_version), 'json4': Response.V4.JSON(json_v4_version), 'text4': Response.V4.Text(text_v4_version)}
     procs = make_processes(encs)
     body = bytes.fromhex(case['body'])
